@@ -198,6 +198,11 @@ def gen_page(rng, selfname=None):
         lines += ["Page title", "==========", ""]
     if rng.random() < 0.1:
         lines = [":orphan:", ""] + lines
+    if rng.random() < 0.12:
+        # page-level fields, among them names that handlers use for page options of their own
+        fields = [f":{rng.choice(['template', 'hidefeedback', 'selectors', 'default_tabs', 'headings', 'ia', 'tabs', 'x', 'multi_page_tutorial_settings'])}: {rng.choice(['foo', '', 'drivers', '1'])}".rstrip()
+                  for _ in range(rng.randint(1, 2))]
+        lines = fields + [""] + lines
     for _ in range(rng.randint(1, 6)):
         lines += gen_chain(rng) if rng.random() < 0.15 else gen_block(rng, 0)
         if selfname and rng.random() < 0.15:
